@@ -79,6 +79,11 @@ func (l *Lexer) NextToken() (lexer.Token, error) {
 		// Read the next character from the input stream.
 		r, err := l.in.Next()
 		if err != nil {
+			// The input ended in the middle of a lexeme: evaluate what has been read so far.
+			if errors.Is(err, io.EOF) && curr != 0 {
+				return l.emit(curr)
+			}
+
 			return lexer.Token{}, err
 		}
 
@@ -89,19 +94,23 @@ func (l *Lexer) NextToken() (lexer.Token, error) {
 			// Retract one character, as the last read character did not belong to the current token.
 			l.in.Retract()
 
-			// Evaluate the final state of the DFA.
-			token := l.evalDFA(curr)
-
-			switch token.Terminal {
-			case ERR:
-				return lexer.Token{}, errors.New(token.Lexeme)
-			case WS, EOL, COMMENT:
-				// Skip whitespaces, newlines, and comments.
-				return l.NextToken()
-			default:
-				return token, nil
-			}
+			return l.emit(curr)
 		}
+	}
+}
+
+// emit evaluates the final state of the DFA and returns the token, skipping whitespaces, newlines, and comments.
+func (l *Lexer) emit(state int) (lexer.Token, error) {
+	token := l.evalDFA(state)
+
+	switch token.Terminal {
+	case ERR:
+		return lexer.Token{}, errors.New(token.Lexeme)
+	case WS, EOL, COMMENT:
+		// Skip whitespaces, newlines, and comments.
+		return l.NextToken()
+	default:
+		return token, nil
 	}
 }
 
